@@ -227,7 +227,15 @@ func runMgr(in c13In) (c emit.Case) {
 	}
 	ops := make([]string, 0, len(mi.Ops))
 	nNext := 0
-	for _, op := range mi.Ops {
+	for i, op := range mi.Ops {
+		// ComputeNext does not change its receiver: the builder, the pre-executor and the verifier may all have asked
+		// this manager for the next state already. Ask for the state the NEXT "next" op will ask for, and drop the answer.
+		for _, later := range mi.Ops[i:] {
+			if later.Op == "next" {
+				_ = m.ComputeNext(later.T, rules{targets: later.Targets, denoms: later.Denoms, mins: later.Mins})
+				break
+			}
+		}
 		switch op.Op {
 		case "setprice":
 			m.SetUnitPrice(hfees.Dimension(op.K), op.V)
